@@ -1,7 +1,7 @@
 (* SI/Props.v — theorems of property C01 (snapshot isolation and external consistency), over the MVCC store
    model Mvcc/Model.v ([step], [run]) for ALL command sequences obeying the timestamp discipline [oracle_ts]
    (Mvcc/Spec.v), plus an abstract event order for external consistency. Definitions: SI/Model.v. *)
-From Verif Require Import SI.Model SI.ProofsTrans SI.ProofsRead SI.ProofsKeyed SI.AsyncStore SI.ProofsWW SI.ProofsIns SI.ProofsInsPoint SI.ProofsExt SI.ProofsOracle.
+From Verif Require Import SI.Model SI.ProofsTrans SI.ProofsRead SI.ProofsKeyed SI.AsyncStore SI.TwoPC SI.ProofsWW SI.ProofsIns SI.ProofsInsPoint SI.ProofsExt SI.ProofsOracle.
 
 (* ---- 1. reads are a function of the committed history restricted to commit ts <= read ts *)
 (* a point get on any reachable store answers either the history read at its read ts (at [eff_ts], which is the
@@ -68,6 +68,20 @@ Theorem C01_async_served_read_bumps_max_ts : forall a k t rs x, t <> max_ts ->
 Proof. exact served_get_max. Qed.
 Print Assumptions C01_async_served_read_bumps_max_ts.
 
+(* 2PC with no oracle-order hypothesis (SI/TwoPC.v): along a joint trace of oracle issues, store requests and
+   acknowledgements the rules [trules] are checked - (T1) oracle strictly increasing, (T2) a commit ts carried by a commit /
+   resolve request was issued after every prewrite of its transaction that placed a lock on k was executed, (T3) an
+   acknowledged commit ts had been issued; the reader's ts was issued before the read was sent. Then the stability
+   predicate holds and the read never changes. Left: GC safe point, the lock met at read time, oracle_ts. *)
+Theorem C01_twopc_read_stable : forall A B k t,
+  trules k [] 0 [] (A ++ B) = true -> t <= tlast 0 A ->
+  oracle_ts (cmds_of A ++ cmds_of B) = true -> forallb (gc_ok t) (cmds_of B) = true ->
+  met_rule (run (cmds_of A)) k t (flat_map cmd_pairs (cmds_of B)) = true ->
+  stable_suffix (run (cmds_of A)) k t (cmds_of B) = true /\
+  read_at (run (cmds_of A ++ cmds_of B)) k t = read_at (run (cmds_of A)) k t.
+Proof. exact twopc_read_stable. Qed.
+Print Assumptions C01_twopc_read_stable.
+
 (* ---- 2. write-write: committed records of two transactions on one key have disjoint
    [lock point, commit ts] intervals; lock point = for-update ts of the pessimistic lock, else the start ts *)
 Theorem C01_ww_disjoint : forall cmds, oracle_ts cmds = true -> ww_discipline cmds = true ->
@@ -115,6 +129,12 @@ Theorem C01_external_consistency : forall tr d j x c r y s,
   c < s + d.
 Proof. exact ext_consistent. Qed.
 Print Assumptions C01_external_consistency.
+
+(* 2PC: commit_rule 0 is not assumed but derived from the joint-trace rules *)
+Theorem C01_twopc_external_consistency : forall k p c q s r,
+  trules k [] 0 [] (p ++ TAck c :: q ++ TTso s :: r) = true -> c < s.
+Proof. exact twopc_external_consistency. Qed.
+Print Assumptions C01_twopc_external_consistency.
 
 (* async commit / 1PC: commit_rule 1 is not assumed but derived from the store mechanics along a joint trace of oracle
    issues, store requests and acknowledgements ([jrules]: oracle increasing; request timestamps were issued earlier,
@@ -213,6 +233,24 @@ Proof. vm_compute. repeat split. Qed.
 Example ex_jrules : jrules a0 0 [] [JTso 10; JReq (AsyncPrewrite [mkMut MPut 1 33 AsNone false] 1 10 0 1 11 false); JAck 11; JTso 20] = true
   /\ jrules a0 0 [] [JTso 10; JReq (OnePC [mkMut MPut 1 33 AsNone false] 1 10 0 1 0 false); JAck 9; JTso 11] = false.
 Proof. vm_compute. split; reflexivity. Qed.
+(* 2PC joint trace: writer T1 commits at 3, reader takes 5 and reads, writer started at 6 prewrites, fetches 8, commits *)
+Definition ex_trace_A : list tev :=
+  [ TTso (T 1); TReq (Prewrite [mkMut MPut 1 17 AsNone false] 1 (T 1) 0 1 0 false); TTso (T 3); TReq (Commit [1] (T 1) (T 3)); TAck (T 3);
+    TTso (T 5); TReq (Get 1 (T 5) []) ].
+Definition ex_trace_B : list tev :=
+  [ TTso (T 6); TReq (Prewrite [mkMut MPut 1 33 AsNone false] 1 (T 6) 0 1 0 false); TTso (T 8); TReq (Commit [1] (T 6) (T 8)); TAck (T 8) ].
+Example ex_trules : trules 1 [] 0 [] (ex_trace_A ++ ex_trace_B) = true /\ tlast 0 ex_trace_A = T 5
+  /\ oracle_ts (cmds_of ex_trace_A ++ cmds_of ex_trace_B) = true /\ forallb (gc_ok (T 5)) (cmds_of ex_trace_B) = true
+  /\ met_rule (run (cmds_of ex_trace_A)) 1 (T 5) (flat_map cmd_pairs (cmds_of ex_trace_B)) = true
+  /\ pl_run 1 [] 0 [] (ex_trace_A ++ ex_trace_B) = [(T 6, T 6); (T 1, T 1)].
+Proof. vm_compute. repeat split. Qed.
+(* (T2) is needed: a commit ts fetched before the prewrite was executed (here: before the reader's ts) breaks the read *)
+Definition ex_trace_bad : list tev :=
+  [ TTso (T 4); TTso (T 4 + 1); TTso (T 5); TReq (Get 1 (T 5) []);
+    TReq (Prewrite [mkMut MPut 1 33 AsNone false] 1 (T 4) 0 1 0 false); TReq (Commit [1] (T 4) (T 4 + 1)) ].
+Example ex_trules_bad : trules 1 [] 0 [] ex_trace_bad = false /\ oracle_ts (cmds_of ex_trace_bad) = true
+  /\ read_at (run (cmds_of (firstn 4 ex_trace_bad))) 1 (T 5) = None /\ read_at (run (cmds_of ex_trace_bad)) 1 (T 5) = Some 33.
+Proof. vm_compute. repeat split. Qed.
 (* event order: x commits (2PC) and is acknowledged, then y begins *)
 Definition ex_trace : list ev :=
   [ EvBeginCall 1; EvTso 10; EvBeginRet 1 10; EvTso 20; EvAck 1 20; EvBeginCall 2; EvTso 30; EvBeginRet 2 30 ].
